@@ -95,6 +95,44 @@ def cluster_generate_phase(tier, seed, wd, verdict):
     return res
 
 
+def cluster_retry_phase(tier, seed, wd, verdict):
+    """'... or to stop answering other requests': a client RETRIES a distributed Generate that cannot succeed (the wallet refuses the name
+    when the account is stored, i.e. after prepare and execute) - the ordinary reaction of a client to a failure.  The participants
+    still hold the first attempt's session, so every retry is refused in its prepare phase.  After many retries (more than any
+    per-peer resource an instance might hold on to for each refused call) other clients' requests - a listing, a VALID Generate
+    through the same instance and through another one - must still be answered."""
+    import dkgfamily
+    nretry = 100 if tier == "quick" else 400
+    calls = [dict(inst=1, caller="c1", msg="generate", account="DW/before", n=3, t=2)]
+    calls += [dict(inst=1, caller="c1", msg="generate", account="DW/_again", n=3, t=2) for _ in range(nretry)]
+    calls += [dict(inst=1, caller="c1", msg="generate", account="DW/after1", n=3, t=2), dict(inst=2, caller="c1", msg="generate", account="DW/after2", n=3, t=2),
+              dict(inst=1, caller="c1", msg="generate", account="DW/after3", n=2, t=2)]
+    sc = dict(id="C20-retries", ids=[1, 2, 3], n=3, t=2, initiator=1, account="DW/unused", generate=False, calls=calls)
+    seen = []
+    res = None
+    for attempt in range(2):
+        evs, rc, err = dkgfamily.run_dkgdrv([dict(sc, id="C20-retries-%d" % attempt)], wd, "c20retries%d" % attempt, timeout=1500, dirk=build_dirk())
+        cl = [e for e in evs if e["ev"] == "Call"]
+        if rc != 0 and not cl:
+            raise Inconclusive("retried distributed Generate on a cluster of dirk binaries: dkgdrv exited %s: %s" % (rc, err[-300:]))
+        if not cl or cl[0]["result"] != "ok":
+            raise Inconclusive("retried distributed Generate: the first, valid generation did not succeed: %s" % cl[:1])
+        silent = [e for e in cl if e.get("noanswer") or e.get("crashed")]
+        res = dict(requests=len(cl), retries=nretry, retries_refused=sum(1 for e in cl[1:1 + nretry] if e["result"] != "ok"), answered_after=sum(1 for e in cl[1 + nretry:] if not e.get("noanswer")),
+                   succeeded_after=sum(1 for e in cl[1 + nretry:] if e["result"] == "ok"))
+        if not silent:
+            break
+        seen.append(dict(request=calls[silent[0]["i"]], position=silent[0]["i"], err=silent[0].get("err", "")[:200], crashed=bool(silent[0].get("crashed"))))
+    if len(seen) >= 2:
+        verdict.violation("noanswer:retried-generate", "after a client retried a failing distributed Generate, an instance of a cluster of real dirk binaries stopped answering "
+                          "(no response and no error within 20 s; seen on two fresh clusters): %s" % seen[0], dict(cluster=sc, observations=seen, retries=True))
+    elif seen:
+        raise Inconclusive("a request got no answer once after retried generations, but not on a fresh cluster: %s" % seen[0])
+    elif res["retries_refused"] < nretry // 2:
+        raise Inconclusive("retried distributed Generate: only %d of %d retries were refused" % (res["retries_refused"], nretry))
+    return res
+
+
 def run(prop, tier, seed):
     t0 = time.time()
     wd = workdir(prop)
@@ -225,6 +263,9 @@ def run(prop, tier, seed):
         cluster = None
         if not verdict.violations:
             cluster = cluster_generate_phase(tier, seed, wd, verdict)
+        retries = None
+        if not verdict.violations:
+            retries = cluster_retry_phase(tier, seed, wd, verdict)
         if len(deaths) >= 2:
             verdict.violation("crash:concurrent-load", "the daemon DIED under concurrent client load (listings with new account expressions, account creation, signing requests "
                               "addressing the created accounts); seen again on a fresh server: %s" % deaths[0], dict(storm=storm_plan["storm"], observations=deaths))
@@ -243,7 +284,7 @@ def run(prop, tier, seed):
                         "combinations; each is concretised (seeded byte fillings), sent over real TLS to the real gRPC service from an authenticated client (key-generation "
                         "messages from non-peers) and followed by a liveness probe from another client; distinct = distinct (method, shape) pairs",
                    samples=msgs[:3], per_method=stats, answered=answered, states=max(r.distinct, 1), transitions=sum(v["messages"] for v in stats.values()),
-                   traces_validated_against_impl=done, crashes=ncrashes, served_by=["in-process services/api/grpc", "the dirk binary"], concurrent_phase=storm, distributed_generate_on_cluster=cluster, exhaustive=False)
+                   traces_validated_against_impl=done, crashes=ncrashes, served_by=["in-process services/api/grpc", "the dirk binary"], concurrent_phase=storm, distributed_generate_on_cluster=cluster, retried_generate_on_cluster=retries, exhaustive=False)
         write_evidence(prop, tier, seed, "exploration", cov, time.time() - t0, violations=len(verdict.violations),
                        assumptions=["decides crash-freedom over the shape abstraction, not over all byte contents",
                                     "TLC is the keeper of the shape catalogue and of the pair-coverage obligation; the covering set is built greedily by the harness"])
